@@ -158,11 +158,11 @@ def run(tier):
         configs = [("wrt", 3, "C_WRT", (0, 0, 0))]      # wwr is model-checked (and partially toured) as rare_tours
         configs_if_differs = [("wr", 2, "A_WR", (1, 1, 1)), ("ww", 2, "A_WW", (1, 1, 1))]
         specs = [
-            ("dfs_a_wr", {"progs": PROGS["A_WR"], "preempt": 3, "max_runs": 1500, "spur": 1, "eintr": 1, "weak": 1, "graph": "wr"}),
+            ("dfs_a_wr", {"progs": PROGS["A_WR"], "preempt": 3, "max_runs": 800, "spur": 1, "eintr": 1, "weak": 1, "graph": "wr"}),
             ("dfs_wr", {"progs": PROGS["B_1"], "preempt": 2, "max_runs": 2500, "spur": 0, "eintr": 0, "weak": 0}),
-            ("dfs_try", {"progs": PROGS["B_2"], "preempt": 2, "max_runs": 1500, "spur": 1, "eintr": 0, "weak": 1}),
-            ("dfs_wwr", {"progs": PROGS["C_WWR"], "preempt": 2, "max_runs": 2500, "spur": 0, "eintr": 0, "weak": 0}),
-            ("dfs_wrr", {"progs": PROGS["C_WRR"], "preempt": 2, "max_runs": 2500, "spur": 0, "eintr": 0, "weak": 0}),
+            ("dfs_try", {"progs": PROGS["B_2"], "preempt": 2, "max_runs": 800, "spur": 1, "eintr": 0, "weak": 1}),
+            ("dfs_wwr", {"progs": PROGS["C_WWR"], "preempt": 2, "max_runs": 1200, "spur": 0, "eintr": 0, "weak": 0}),
+            ("dfs_wrr", {"progs": PROGS["C_WRR"], "preempt": 2, "max_runs": 1200, "spur": 0, "eintr": 0, "weak": 0}),
             # try variants against a word with a holder and both waiting bits (needs 4 threads)
             ("dfs_www", {"progs": PROGS["C_WWW"], "preempt": 1, "max_runs": 600, "spur": 0, "eintr": 0, "weak": 0}),
             # coverage-guided (novel (state, choice) pairs first): reaches the words with a holder and both
@@ -203,9 +203,9 @@ def run(tier):
         ]
     stress = {"threads": 4, "sections": 1500} if tier == "quick" else {"threads": 8, "sections": 10000}
     rare = [("wwr", 3, "C_WWR", (0, 0, 0))] if tier == "quick" else []     # thorough tours the 3-thread graph wrt completely
-    rel = [(t, sp) for t, sp in specs if t in (("dfs_wr", "cov4", "hold_wrw") if tier == "quick" else ("dfs_wr", "dfs_wwr", "cov4", "hold_wrw"))]
+    rel = [(t, sp) for t, sp in specs if t in (("cov4", "hold_wrw") if tier == "quick" else ("dfs_wr", "dfs_wwr", "cov4", "hold_wrw"))]
     return LC.run(tier, tours, configs, configs_if_differs, specs, stress=stress, rare_tours=rare, release_specs=rel,
-                  probe_scenarios=["rww_before", "rwr_before", "rww_after", "rwr_after"],
+                  probe_scenarios=["rww_before", "rwr_before", "rww_after", "rwr_after", "rww_after@fifo", "rwr_after@fifo"],
                   directed=[("tog_www", 3, "C_WWW", (0, 0, 0), "NotifyToggle <- ToggleOn",
                              "writer_notify as a toggle instead of a counter (NotifyDistinct): ABA inside a writer's sample->wait window")])
 
